@@ -2,6 +2,7 @@ package transcoding
 
 import (
 	"bytes"
+	"encoding/base64"
 	"encoding/json"
 	"fmt"
 	"io"
@@ -399,7 +400,19 @@ func (d *jsonDecoder) unmarshalScalar(fd protoreflect.FieldDescriptor) (protoref
 	case protoreflect.StringKind:
 		return jsonValueDecode(d.dec, protoreflect.ValueOfString)
 	case protoreflect.BytesKind:
-		return jsonValueDecode(d.dec, protoreflect.ValueOfBytes)
+		// bytes are base64 strings only, decoding into a []byte would also accept arrays of numbers
+		var decodeErr error
+
+		value, err := jsonValueDecode(d.dec, func(s string) protoreflect.Value {
+			var b []byte
+			b, decodeErr = base64.StdEncoding.DecodeString(s)
+			return protoreflect.ValueOfBytes(b)
+		})
+		if err == nil && decodeErr != nil {
+			return protoreflect.Value{}, fmt.Errorf("invalid value for %v type: %w", fd.Kind(), decodeErr)
+		}
+
+		return value, err
 	case protoreflect.EnumKind:
 		var repr any
 		if err := d.dec.Decode(&repr); err != nil {
